@@ -9,6 +9,7 @@
     * `offset_invariant…`: on tab-free lines every offset-taking recogniser (IndentWidth, IndentPosition,
       thematic break, fence close, indented code, the openBlocks gate, the quote marker itself) answers the
       same from every start column — so the two columns the marker adds cannot change what the children see.
+      Since /repo 3fb40b2 calcListOffset and listItemParser.Open take the column too: `offset_invariant_list`.
       (The remaining recognisers — parseListItem, setext bar, ATX open, fence open — have no column
       parameter at all; their only column-dependent input is the block offset covered by `blockOffset`.)
   What is NOT proved: the composition of these steps by the block driver (parser.parseBlocks/openBlocks over
@@ -45,6 +46,15 @@ theorem offset_invariant (line : Bytes) (h : tabFree line) (c c' : Nat) :
    fun w => by rw [indentPosition_tabfree line c w h, indentPosition_tabfree line c' w h],
    tb_offset line h c c', fenceClose_offset line h c c', (code_offset line h c c').1, (code_offset line h c c').2,
    blockOffset_offset line h c c', fun wh => openLine_offset wh line h c c'⟩
+
+/-- `offset_invariant` for list items (since /repo 3fb40b2 `calcListOffset` and `listItemParser.Open` add
+    `reader.LineOffset()` to the column handed to IndentWidth / IndentPosition): on a tab-free line the content
+    offset and the whole result of `listItemParser.Open` (item offset, child position, padding) are the same for
+    any two columns. -/
+theorem offset_invariant_list (line : Bytes) (h : tabFree line) (c c' : Nat) :
+    (∀ m4, calcListOffset line m4 c = calcListOffset line m4 c') ∧
+    (∀ lastOff, listItemOpen line lastOff c = listItemOpen line lastOff c') :=
+  ⟨fun m4 => calcListOffset_offset line m4 h c c', fun lastOff => listItemOpen_offset line lastOff h c c'⟩
 
 /-- `offset_invariant` for the quote marker itself: on a tab-free one-line `line`, whatever precedes it on
     its source line (`pre`: any bytes, i.e. any start column — e.g. outer quote markers), `process` accepts
@@ -94,6 +104,8 @@ example : indentWidth [9, 97] 0 = (4, 1) ∧ indentWidth [9, 97] 2 = (2, 1) := b
 example : indentPosition [9, 97] 0 4 = (1, 0) ∧ indentPosition [9, 97] 2 4 = (-1, -1) := by decide
 example : codeOpen [9, 97] 0 = true ∧ codeOpen [9, 97] 2 = false := by decide
 example : isThematicBreak [32, 9, 45, 45, 45] 0 = false ∧ isThematicBreak [32, 9, 45, 45, 45] 2 = true := by decide
+example : listItemOpen [45, 9, 97] 0 0 = .ok (some { offset := 4, child := some (2, 0) }) ∧
+    listItemOpen [45, 9, 97] 0 2 = .ok (some { offset := 2, child := some (2, 0) }) := by decide
 -- and the marker's optional "space" may be a partial tab: padding 2 is left behind
 example : quoteProcess (rd [] [62, 9, 97]) = some (true, { src := [62, 9, 97], start := 2, padding := 2 }) := by
   decide
